@@ -422,6 +422,10 @@ class Ref:
             self.objective = {r: 1.0 for r in rx}
         elif kind == "dict":
             self.objective = {r: float(c) for r, c in zip(rx, op["coefs"]) if c != 0}
+        elif kind.startswith("obj_"):
+            if kind.startswith("obj_new"):
+                self.objective = {r: float(c) for r, c in zip(rx, op["coefs"]) if c != 0}
+            self.direction = kind[-3:]  # "an optlang Objective": taken as it is, direction included
         else:
             c = op["coefs"][0]
             if c == 0:
@@ -501,7 +505,7 @@ class Ref:
         for mid in mets:
             if mid not in self.mets:
                 self.mets[mid] = new_met(mid, compartment=None)  # "unknown metabolite created": no compartment given
-        r["mets"] = mets
+        r["mets"] = {mid: c for mid, c in mets.items() if c != 0}  # a term "0 a" creates a but leaves no entry
 
     def op_inplace_meta(self, op, o, out):
         what = op["what"]
